@@ -7,7 +7,7 @@
    by tokio and reported as JoinErrors by at_sim_end; they do not deactivate the module.
    Unwinding itself (that catch_unwind leaves tokio's and Rust's state intact) is not modelled. *)
 From Coq Require Import List NArith Bool.
-From DesVerif Require Import Life.Model Life.Base Life.Step Life.Trace Life.Frame Life.Inert Life.Events Life.Panic.
+From DesVerif Require Import Life.Model Life.Base Life.Step Life.Trace Life.Frame Life.Inert Life.Events Life.Panic Life.Silent.
 Import ListNotations.
 Open Scope N_scope.
 
@@ -43,6 +43,28 @@ Theorem C13_globals_released : forall sc,
 Proof. intros sc. split; [exact (globals_released_gen sc)|intros now ms w; exact (end_seq_cur sc now ms w)]. Qed.
 Print Assumptions C13_globals_released.
 
+(* others_as_if_silent (partial).  [quieten m sc] is the script in which module m's callbacks
+   (handle_message, at_sim_start, at_sim_end) "fall silent" wherever those of [sc] panic: they
+   return normally, request shutdown() unless a request is already pending, and the tasks polled in
+   that event end at once.  [events_of] drops the tear-down records; [others m] keeps, in order, every
+   record of every module other than m (callbacks with their time stamps, task steps, sends, logs,
+   requests, resets).  If both runs complete, these are the same in the two runs: no other module
+   can tell whether m panicked or merely fell silent -- whichever callbacks of m panic, however
+   often (m may have requested a restart before panicking and panic again later), and whatever m's
+   left-over wake-ups do to the event set.
+   Full statement, not proved: the same without the hypothesis [c_stages (cfg sc m) = 1], including
+   the tear-down records up to their time stamp.  It is FALSE of the model and of the pinned code for
+   modules with several start-up stages: SimLifecycle::at_sim_start still calls the later stages of a
+   module whose stage 0 panicked, which polls the tasks spawned before the panic; such a task can
+   request a restart and send, so that other modules receive messages they would not have received
+   (witness: corpus/C13/multistage_panic.txt, proposed patch fixes/F15.diff).  The completion
+   hypotheses are about the model's fuel. *)
+Theorem C13_others_as_if_silent_partial : forall sc m, c_stages (cfg sc m) = 1 ->
+  r_ok (run_script sc) = true -> r_ok (run_script (quieten m sc)) = true ->
+  others m (items (events_of (trace sc))) = others m (items (events_of (trace (quieten m sc)))).
+Proof. exact others_as_if_silent. Qed.
+Print Assumptions C13_others_as_if_silent_partial.
+
 (* Non-vacuity.  Module 0 panics in handle_message at t = 2 (its task would have logged 7 at
    t = 3); module 2 has the catching stereotype and panics in at_sim_start. *)
 Definition px_m0 : modcfg := {| c_catch := false; c_stages := 1; c_bud := 5; c_start := [[]];
@@ -65,5 +87,10 @@ Example C13_nonvacuous :
     [(KLoop (EvWake 0), [ISample 3 2]); (KLoop (EvDeliver 0 1), [ISample 4 2]);
      (KLoop (EvDeliver 1 0), [ICall 1 (CbMsg 0) 4 true; ILog 1 0 2; ISample 4 2])] /\
   (* only the non-catching module is reported *)
-  r_err (run_script px) = [(false, 0)] /\ perrs px (items tr) = [(false, 0)].
-Proof. vm_compute. repeat split; reflexivity. Qed.
+  r_err (run_script px) = [(false, 0)] /\ perrs px (items tr) = [(false, 0)] /\
+  (* module 1 sees the same in the run where module 0 falls silent instead (it is then reset and its task cancelled) *)
+  others 0 (items (events_of tr)) = others 0 (items (events_of (trace (quieten 0 px)))) /\
+  others 0 (items (events_of tr)) <> [] /\
+  e_items (nth 4 (trace (quieten 0 px)) (boot_rec px (init_world px))) =
+    [ICall 0 (CbMsg 0) 2 true; ILog 0 0 1; IQuiet 0; ICancel 0 0; IReset 0 2 1; ISample 2 2].
+Proof. vm_compute. repeat split; try reflexivity; discriminate. Qed.
